@@ -87,7 +87,9 @@ def listing(pattern, folders, opts):
                 fi_, off, size = w.member_range[i]
                 c.append(f["folder"] == fi_)
                 c.append(eq(eng, f["size"], size))
-                if opts.get("crc_at", "sub") != "none" and (opts.get("crc_at") != "folder" or folders[fi_] == 1):
+                if en.get("crc_defined", True) is False:
+                    c.append(f["digest"] is None)       # no CRC stored for this member: none reported
+                elif opts.get("crc_at", "sub") != "none" and (opts.get("crc_at") != "folder" or folders[fi_] == 1):
                     c.append(f["digest"] is not None)
                     if f["digest"] is not None:
                         c.append(eq(eng, f["digest"], en["crc"]))
@@ -317,6 +319,8 @@ def concrete_case(pattern, folders, opts, witness, names=None):
         e["mtime"] = None if (undefined_time or opts.get("times") == "none") else 132000000000000000 + i
         if opts.get("ctime"):
             e["ctime"] = 131000000000000000 + i
+        if opts.get("digests") == "partial" and k in "fl" and sum(1 for c_ in pattern[:i] if c_ in "fl") % 2 == 1:
+            e["crc_defined"] = False
         entries.append(e)
         if k in "fl":
             datas.append(data)
